@@ -47,6 +47,25 @@ try:
     rc, out = sh(["/venv/bin/python", os.path.join(V, "tools", "baseline.py"), wt, f"/tmp/ev_{name}.xml"], env=dict(os.environ, PYTHONHASHSEED="0"))
     meta["suite_passes"] = rc == 0
     meta["suite_output"] = out[-400:]
+    if rc != 0:
+        # three [cfg1] enumeration tests are PYTHONHASHSEED-flaky on the UNMODIFIED tree (finding C02-F3): a change that
+        # merely moves the set of failing hash seeds still "passes the existing tests"; re-run exactly those under other seeds
+        flaky = {"tests.syntax.grammars.enumeration.test_heap_search::test_unicity_heapSearch[cfg1]",
+                 "tests.syntax.grammars.enumeration.test_heap_search::test_unicity_bucketSearch[cfg1]",
+                 "tests.syntax.grammars.enumeration.test_heap_search::test_merge[cfg1]"}
+        missing = {l.split("NOT PASSING: ")[1].strip() for l in out.split("\n") if l.startswith("NOT PASSING: ")}
+        if missing and missing <= flaky:
+            ok_under = {}
+            for t in sorted(missing):
+                nodeid = "tests/syntax/grammars/enumeration/test_heap_search.py::" + t.split("::")[1]
+                for hs in ("1", "2", "3", "4", "5"):
+                    r, _ = sh(["/venv/bin/python", "-m", "pytest", "-q", "-p", "no:cacheprovider", "--timeout=900", nodeid], cwd=wt, env=dict(os.environ, PYTHONHASHSEED=hs))
+                    if r == 0:
+                        ok_under[t] = hs
+                        break
+            if set(ok_under) == missing:
+                meta["suite_passes"] = True
+                meta["suite_note"] = "hash-seed-flaky tests (flaky on the unmodified tree too) pass under PYTHONHASHSEED=" + ",".join(f"{t.split('::')[1]}:{h}" for t, h in ok_under.items())
     meta["ran"].append("PYTHONHASHSEED=0 tools/baseline.py <changed tree> (pinned suite, 214 stable tests)")
     detected = {}
     evf = os.path.join(V, "evidence", f"{pid}.json")
